@@ -220,7 +220,8 @@ func (gs *GraphicsState) ShowText(text string) (dx, dy float64) {
 }
 
 // ShowTextWithWidth updates position after showing text with a known width
-// width should be the total width of the text glyphs in user space units
+// width should be the total width of the text glyphs in text space units
+// (glyph widths times font size, times horizontal scaling)
 func (gs *GraphicsState) ShowTextWithWidth(text string, width float64) (dx, dy float64) {
 	numChars := float64(len(text))
 	numSpaces := float64(0)
@@ -245,10 +246,19 @@ func (gs *GraphicsState) ShowTextWithWidth(text string, width float64) (dx, dy f
 	totalAdvance += numSpaces * gs.Text.WordSpacing * scale
 	totalAdvance += numChars * gs.Text.CharSpacing * scale
 
-	// Update text matrix (E component = tx)
-	gs.Text.TextMatrix[4] += totalAdvance
+	// Update text matrix: Tm = T(tx, 0) x Tm
+	gs.AdvanceText(totalAdvance)
 
 	return totalAdvance, 0
+}
+
+// AdvanceText moves the text matrix by tx units along the x axis of text
+// space: Tm = T(tx, 0) x Tm (ISO 32000-1 9.4.4). The displacement is scaled and
+// rotated with the text, so under a text matrix [a b c d e f] the translation
+// part moves by (tx*a, tx*b). The text line matrix is not changed.
+func (gs *GraphicsState) AdvanceText(tx float64) {
+	gs.Text.TextMatrix[4] += tx * gs.Text.TextMatrix[0]
+	gs.Text.TextMatrix[5] += tx * gs.Text.TextMatrix[1]
 }
 
 // ShowTextArray shows text with positioning adjustments (TJ operator)
@@ -266,17 +276,17 @@ func (gs *GraphicsState) ShowTextArray(array []interface{}) (dx, dy float64) {
 		case int:
 			// Position adjustment (in thousandths of em)
 			adjustment := -float64(v) * gs.Text.FontSize / 1000.0
-			gs.Text.TextMatrix[4] += adjustment
+			gs.AdvanceText(adjustment)
 			totalDisplacement += adjustment
 
 		case int64:
 			adjustment := -float64(v) * gs.Text.FontSize / 1000.0
-			gs.Text.TextMatrix[4] += adjustment
+			gs.AdvanceText(adjustment)
 			totalDisplacement += adjustment
 
 		case float64:
 			adjustment := -v * gs.Text.FontSize / 1000.0
-			gs.Text.TextMatrix[4] += adjustment
+			gs.AdvanceText(adjustment)
 			totalDisplacement += adjustment
 		}
 	}
